@@ -250,6 +250,14 @@ Definition pp (o : obj) : printed :=
   | None => PValue
   end.
 
+(* the object printed WITHOUT decoration (an IndexedSymbol without its index: the base itself, as it occurs in [m, E], Eq(m, E),
+   Tuple(m, 2)): still the display name *)
+Definition pp_bare (o : obj) : printed :=
+  match okind o with
+  | KIndexed => match pp_name o with Some s => PText s | None => PValue end
+  | _ => pp o
+  end.
+
 Definition printed_eqb (a b : printed) : bool :=
   match a, b with
   | PText x, PText y => String.eqb x y
@@ -325,17 +333,18 @@ Definition solve_lin2 (a b y : string) : expr := EDiv (ENeg (EMul (EVar b) (EVar
 Record seen := mkseen {
   s_kind : kind; s_name : string; s_display : string; s_latex : string; s_dim : dim; s_assum : assum;
   s_print : printed;     (* print_expression *)
-  s_code : printed       (* code_str *)
+  s_code : printed;      (* code_str *)
+  s_bare : printed       (* print_expression of the undecorated object *)
 }.
 
 Definition see (o : obj) : seen :=
-  mkseen (okind o) (oname o) (odisplay o) (olatex o) (odim o) (oassum o) (pp o) (pp o).
+  mkseen (okind o) (oname o) (odisplay o) (olatex o) (odim o) (oassum o) (pp o) (pp o) (pp_bare o).
 
 Definition seen_eqb (a b : seen) : bool :=
   kind_eqb (s_kind a) (s_kind b) && String.eqb (s_name a) (s_name b) &&
   String.eqb (s_display a) (s_display b) && String.eqb (s_latex a) (s_latex b) &&
   deqb (s_dim a) (s_dim b) && assum_eqb (s_assum a) (s_assum b) &&
-  printed_eqb (s_print a) (s_print b) && printed_eqb (s_code a) (s_code b).
+  printed_eqb (s_print a) (s_print b) && printed_eqb (s_code a) (s_code b) && printed_eqb (s_bare a) (s_bare b).
 
 (* multiset equality of printed terms (order of terms in a sum is not part of the property) *)
 Fixpoint remove_one (x : string) (l : list string) : option (list string) :=
